@@ -181,20 +181,31 @@ enum Exit {
 }
 
 fn live_body(exit: Exit) -> vsched::Body {
+    live_body_x(exit, false)
+}
+
+/// `linked`: the racing spawns are spawn_linked under a supervisor S, which must hear nothing of the loser
+fn live_body_x(exit: Exit, linked: bool) -> vsched::Body {
     Arc::new(move || {
         Box::pin(async move {
             let log = Log::default();
             let mut bad: Vec<String> = Vec::new();
+            let (sup, suph) = Actor::spawn(None, Probe, args("S", Prog::default(), &log)).await.expect("S");
             // phase 1: two spawns race for the name, a third actor takes a private name
             let mk = |id: &'static str, fail: bool| {
                 let log = log.clone();
+                let sup = sup.clone();
                 vsched::spawn("spawner", async move {
                     let prog = Prog {
                         pre_start: if fail { vec![Step::Yield, Step::Err("no")] } else { vec![Step::Yield] },
                         ..Default::default()
                     };
                     let call = vsched::call_stamp();
-                    let r = Actor::spawn(Some("N".into()), Probe, args(id, prog, &log)).await;
+                    let r = if linked {
+                        Actor::spawn_linked(Some("N".into()), Probe, args(id, prog, &log), sup.get_cell()).await
+                    } else {
+                        Actor::spawn(Some("N".into()), Probe, args(id, prog, &log)).await
+                    };
                     let ret = vsched::ret_stamp();
                     (id, call, ret, r)
                 })
@@ -236,6 +247,24 @@ fn live_body(exit: Exit) -> vsched::Body {
                     bad.push("both spawns succeeded".into());
                 }
             }
+            if linked {
+                vsched::quiesce();
+                // the supervisor's child set holds exactly the successful spawns, and it heard of nobody else
+                let mut kids: Vec<_> = sup.get_children().iter().map(|c| c.get_id()).collect();
+                kids.sort();
+                let mut want: Vec<_> = live.iter().map(|l| l.1.get_id()).collect();
+                want.sort();
+                if kids != want {
+                    bad.push(format!("the supervisor's child set is {kids:?}, the successful spawns are {want:?} (a losing or failed spawn must leave nothing)"));
+                }
+                for e in log.of("S") {
+                    if let (Cb::Sup(d), EvKind::Enter) = (&e.cb, &e.kind) {
+                        if (d.starts_with("Started") || d.starts_with("Terminated") || d.starts_with("Failed")) && !live.iter().any(|l| d.contains(&format!("({},", l.1.get_id())) || d.contains(&format!("({})", l.1.get_id()))) {
+                            bad.push(format!("the supervisor received {d} for a spawn that did not succeed"));
+                        }
+                    }
+                }
+            }
             if let Some(id) = look.2 {
                 if !live.iter().any(|l| l.1.get_id() == id) && !(exit == Exit::FailedStart) {
                     bad.push(format!("where_is returned {id}, not the actor of the successful spawn"));
@@ -251,6 +280,7 @@ fn live_body(exit: Exit) -> vsched::Body {
                 let (pids, _) = ractor::registry::pid_registry::verif_snapshot();
                 let mut expect: Vec<_> = live.iter().map(|l| l.1.get_id()).collect();
                 expect.sort();
+                let pids: Vec<_> = pids.into_iter().filter(|p| *p != sup.get_id()).collect();
                 if pids != expect {
                     bad.push(format!("after the race the pid table holds {pids:?}, expected the successful spawns {expect:?} (losing and failed spawns must leave nothing)"));
                 }
@@ -363,10 +393,13 @@ fn live_body(exit: Exit) -> vsched::Body {
             #[cfg(feature = "alt")]
             {
                 let (pids, listeners) = ractor::registry::pid_registry::verif_snapshot();
+                let pids: Vec<_> = pids.into_iter().filter(|p| *p != sup.get_id()).collect();
                 if !pids.is_empty() || !listeners.is_empty() {
                     bad.push(format!("pids still registered after every actor stopped: {pids:?} {listeners:?}"));
                 }
             }
+            sup.stop(None);
+            let _ = suph.await;
             Outcome {
                 key: format!("errs={:?} look={:?}", errs.iter().map(|e| e.0).collect::<Vec<_>>(), look.2.map(|i| i.to_string())),
                 violations: bad,
@@ -566,6 +599,9 @@ pub fn plan(tier: &str) -> Plan {
     for exit in [Exit::Stop, Exit::Kill, Exit::FailedStart] {
         units.push(Unit::explore_split(Job::new(format!("live/{exit:?}"), live_cfg.clone(), Some(lb), live_body(exit)), 8));
     }
+    for exit in [Exit::Stop, Exit::FailedStart] {
+        units.push(Unit::explore_split(Job::new(format!("live-linked/{exit:?}"), live_cfg.clone(), Some(lb), live_body_x(exit, true)), 8));
+    }
     // the same units once more on the cluster build of the harness (pid table next to the name table),
     // plus the pid-table cores
     let alt_units: Vec<(String, ExecCfg, Option<usize>, vsched::Body, usize)> = vec![
@@ -584,7 +620,7 @@ pub fn plan(tier: &str) -> Plan {
     Plan {
         property: "C10",
         units,
-        rule: "concurrent registrations of one name, lookups, the exit path of the holder and respawns, on real cells (complete tree with sleep sets for the 3-task cores) and on real spawned actors (deviation-bounded); decision point before every DashMap, lock and atomic operation; oracle: at most one holder at any time, losers fail with ActorAlreadyRegistered and leave nothing, lookups only return a current holder and never one whose wait() returned, the name is reusable after wait(); in the cluster build the same for where_is_pid / get_all_pids, and failed or losing spawns leave no pid; non-trivial = execution with >= 1 branching decision".into(),
+        rule: "concurrent registrations of one name, lookups, the exit path of the holder and respawns, on real cells (complete tree with sleep sets for the 3-task cores) and on real spawned actors (deviation-bounded); decision point before every DashMap, lock and atomic operation; oracle: at most one holder at any time, losers fail with ActorAlreadyRegistered and leave nothing (no callback, no pid, no child-set entry and no event at a supervisor they were to be linked to), lookups only return a current holder and never one whose wait() returned, the name is reusable after wait(); in the cluster build the same for where_is_pid / get_all_pids, and failed or losing spawns leave no pid; non-trivial = execution with >= 1 branching decision".into(),
         assumptions: vec![
             "sequential consistency; each DashMap access is atomic, a shard held across a scheduling point is waited for cooperatively".into(),
             "the pid table only exists in ractor's cluster build: the alt/ units run on a second build of this harness (ractor features cluster + async-trait + monitors)".into(),
